@@ -180,7 +180,7 @@ def run(tier, seed):
             nrep += r["coverage"].get("evaluations") or 0
             nval += r["coverage"].get("traces_validated_against_impl") or 0
             for v in r["violations"]:
-                if v["sig"].startswith("deviation="):
+                if "deviation=" in v["sig"]:
                     continue                     # recorded findings of the family, reported by its own check
                 log = ""
                 try:
